@@ -32,13 +32,16 @@ void arm(string hook, int subject, string action, int a, int b) {
   if (!armed[hook]) armed[hook] = ({ });
   armed[hook] += ({ ({ subject, action, a, b }) });
 }
+// half of the files live under a path whose first 40 characters (all the name table hashes) are the same: blueprints and clones of
+// these files share one hash chain
+string fname(int k) { return k < 3 ? "/t/o" + k : "/t/c08_a_directory_name_longer_than_the_forty_hashed_characters/o" + k; }
 mixed perform(string action, int a, int b) {
   object x = ref(a), y = ref(b);
   switch (action) {
   case "move": if (x && y) { x->do_move(y); return 1; } return 0;
   case "destruct": if (x) { destruct(x); return 1; } return 0;
-  case "clone": { object o = new("/t/o" + (a % 6)); return 1; }
-  case "load": { object o = load_object("/t/o" + (a % 6)); return objectp(o); }
+  case "clone": { object o = new(fname(a % 6)); return 1; }
+  case "load": { object o = load_object(fname(a % 6)); return objectp(o); }
   case "error": error("hook fault\n");
   case "living": if (x) { x->do_living("liv" + (b % 4)); return 1; } return 0;
   case "unliving": if (x) { x->do_unliving(); return 1; } return 0;
@@ -176,7 +179,7 @@ def get_worker(ctx):
     if w is None:
         fl = {"t/c08script.c": SCRIPT, "t/c08base.c": BASE}
         for k in range(NB):
-            fl["t/o%d.c" % k] = 'inherit "/t/c08base";\n'
+            fl[("t/o%d.c" if k < 3 else "t/c08_a_directory_name_longer_than_the_forty_hashed_characters/o%d.c") % k] = 'inherit "/t/c08base";\n'
         w = Worker(ctx.scratch("w"), timeout=20, mudlib_files=fl)
         _workers[ctx.rundir] = w
     return w
